@@ -2,6 +2,7 @@ package validator
 
 import (
 	"github.com/jsightapi/jsight-schema-go-library/errors"
+	"github.com/jsightapi/jsight-schema-go-library/internal/json"
 	"github.com/jsightapi/jsight-schema-go-library/internal/lexeme"
 	"github.com/jsightapi/jsight-schema-go-library/notations/jschema/internal/schema"
 )
@@ -11,6 +12,16 @@ import (
 type literalValidator struct {
 	node_   schema.Node
 	parent_ validator
+	// onlyNull is set for the validator which stands for `nullable: true` next
+	// to the validators of a type list or of a container: it accepts the null
+	// literal and nothing else.
+	onlyNull bool
+}
+
+func newNullValidator(node schema.Node, parent validator) *literalValidator {
+	v := newLiteralValidator(node, parent)
+	v.onlyNull = true
+	return v
 }
 
 func newLiteralValidator(node schema.Node, parent validator) *literalValidator {
@@ -47,6 +58,13 @@ func (v *literalValidator) feed(jsonLexeme lexeme.LexEvent) ([]validator, bool) 
 	case lexeme.LiteralBegin:
 		return nil, false
 	case lexeme.LiteralEnd:
+		if v.onlyNull && jsonLexeme.Value().String() != "null" {
+			panic(errors.Format(
+				errors.ErrInvalidValueType,
+				json.Guess(jsonLexeme.Value()).LiteralJsonType().String(), // can panic
+				v.node_.Type().String(),
+			))
+		}
 		ValidateLiteralValue(v.node_, jsonLexeme.Value()) // can panic
 		return nil, true
 	}
